@@ -130,6 +130,20 @@ def main():
               ratios=[sp.size_ratio(inst[0], inst[1]), sp.size_ratio(inst[0], inst[2]), sp.size_ratio(inst[1], inst[0])])
     c.sample({"a": insts[0][0], "b": insts[0][1], "c": insts[0][2], "m": insts[0][3], "k": insts[0][4],
               "steps": [[st.get("m") or st.get("err") for st in x["steps"]] for x in r["results"][:6]]})
+    # ---------------- the first conversion of a pair made by several threads at once gives what a single thread gets
+    rpairs = []
+    for _ in range(12 if quick else 80):
+        a, b = sp.pair(rng); rpairs.append((a, b, convgen.rand_mag(rng, ("int", "float"))))
+    seq = impl("convsys_worker.py", {"systems": True, "cases": [{"op": "in_unit", "a": {"m": m, "u": a}, "b": b} for a, b, m in rpairs]})["results"]
+    rac = impl("convsys_worker.py", {"systems": True, "cases": [{"op": "race", "a": {"m": m, "u": a}, "b": b, "threads": 8} for a, b, m in rpairs]})["results"]
+    for (a, b, m), s1, r1 in zip(rpairs, seq, rac):
+        c.count({"race": [a, b, m]}, nontrivial=(a != b))
+        if "setup_err" in s1 or "setup_err" in r1: continue
+        want = s1.get("m") or ["err", s1.get("err")]
+        got = [tuple(x) for x in r1["threads"]] + [tuple(r1["after"])]
+        if any(x != tuple(want) for x in got):
+            c.violation("concurrent-first-use", f"converting {m} {a} to {b} first from 8 threads at once gives {sorted(set(got))[:4]}, a single thread gets {want}",
+                        {"a": a, "b": b, "m": m, "threads": r1["threads"], "after": r1["after"], "sequential": want})
     # ---------------- synthetic
     nsys, nper = (8, 14) if quick else (60, 40)
     jobs = []
